@@ -289,6 +289,18 @@ def run_item(ctx, item):
     elif kind == "gen":
         rng = ctx.rng("gen", item[1])
         part, meta = gen_score.make_part(rng, "P1", profile="full")
+        if rng.random() < 0.3:
+            # the timeline goes on after the last barline: a final note (or a text mark) rings over it
+            import partitura.score as S
+            ms_ = [m for m in part.iter_all(S.Measure) if m.end is not None]
+            if ms_:
+                last_m = max(ms_, key=lambda m: m.end.t)
+                over = last_m.end.t + rng.randint(1, max(1, last_m.end.t - last_m.start.t))
+                if rng.random() < 0.6:
+                    part.add(S.Note("C", 2, id="ringing", voice=1, staff=1), rng.randint(last_m.start.t, last_m.end.t - 1), over)
+                else:
+                    part.add(S.Words("fine", staff=1), over)
+                ctx.extra["parts_whose_timeline_outlasts_the_last_measure"] += 1
         get_all(ctx, part)
         d = sigmaps.describe(part)
         kinds_changed = sum(len({r[1:] for r in d[k]}) >= 2 for k in ("ts", "ks", "clefs"))
